@@ -24,6 +24,7 @@ __CPROVER_ensures(nix_exc == EXC_NONE || nix_exc == EXC_IncompatibleDimensions)
 __CPROVER_ensures(nix_exc == EXC_NONE ==> ((RV.has != 0) == (gh_ge.has != 0) && RV.val == gh_ge.val))
 __CPROVER_assigns(nix_exc)
 ;
+#define S_GIVEN_(i) ((i) < start->n && (i) < end->n)
 #define S_OLD(p, k) __CPROVER_old((p)->dims[k])
 #define VD_OK(v, len) (__CPROVER_is_fresh(v, sizeof(vec_double)) && (v)->n == (len) && __CPROVER_is_fresh((v)->data, (len) * sizeof(double)))
 NIX_THROWS void slice_assemble_dim(const DataArray *array, const vec_double *start, const vec_double *end, const vec_double *my_start, const vec_double *my_end, const vec_nstr *my_units, RangeMatch match, NDSize *count, NDSize *offset, size_t i)
@@ -34,8 +35,12 @@ __CPROVER_requires(/*the caller's vectors may be shorter than the number of dime
 __CPROVER_requires(/*my_start / my_end are copies of start / end where those have entries*/ (i < start->n ==> start->data[i] == my_start->data[i]) && (i < end->n ==> end->data[i] == my_end->data[i]))
 __CPROVER_requires(nix_exc == EXC_NONE && gh_pair_calls == 0 && (match == RangeMatch_Inclusive || match == RangeMatch_Exclusive))
 __CPROVER_ensures(/*start-after-end-rejected*/ (my_start->data[i] > my_end->data[i]) <==> nix_exc == EXC_invalid_argument)
-__CPROVER_ensures(/*region-asked-is-padded-start-to-padded-end-of-dimension-i-in-the-given-mode*/ !(my_start->data[i] > my_end->data[i]) ==> (gh_pair_calls == 1 && gh_pair_match == match && gh_pair_dim == i + 1 &&
+__CPROVER_ensures(/*region-asked-is-padded-start-to-padded-end-of-dimension-i-in-the-given-mode*/ !(my_start->data[i] > my_end->data[i]) ==> (gh_pair_calls == 1 && (S_GIVEN_(i) ==> gh_pair_match == match) && gh_pair_dim == i + 1 &&
                   gh_pair_unit == my_units->data[i].id && (gh_pair_start == my_start->data[i] || isnan(my_start->data[i])) && (gh_pair_end == my_end->data[i] || isnan(my_end->data[i]))))
+/* "with dimensions that are not specified included in full": a dimension the caller left out (i beyond the caller's start / end vectors) is padded with
+   [first coordinate, last coordinate] (fill_pad_dim), so its region is closed at the end whatever the requested mode */
+#define S_GIVEN(i) ((i) < start->n && (i) < end->n)
+__CPROVER_ensures(/*unspecified-dimension-is-included-in-full-in-either-mode*/ (!S_GIVEN(i) && !(my_start->data[i] > my_end->data[i])) ==> gh_pair_match == RangeMatch_Inclusive)
 __CPROVER_ensures(/*region-with-elements:offset-is-first-index*/ (gh_pair.has && !(my_start->data[i] > my_end->data[i])) ==> (nix_exc == EXC_NONE && offset->dims[i] == gh_pair.val.first))
 __CPROVER_ensures(/*region-with-elements:count-spans-to-last-index*/ (gh_pair.has && !(my_start->data[i] > my_end->data[i])) ==> count->dims[i] == S_OLD(count, i) + (gh_pair.val.second - gh_pair.val.first))
 __CPROVER_ensures(/*point:first-element-at-or-after-the-start*/ (!gh_pair.has && nix_exc == EXC_NONE && !isnan(my_end->data[i] - my_start->data[i])) ==>   /* NaN and equal infinities excluded */ (my_end->data[i] - my_start->data[i] <= DBL_EPSILON && gh_ge.has && offset->dims[i] == gh_ge.val && count->dims[i] == S_OLD(count, i)))
